@@ -329,6 +329,7 @@ def _exec_probe(net, op, i, ctx, h):
     kw_ref = {k: v for k, v in kw.items() if k not in ("init", "init_vm_pu", "init_va_degree")} if init_results else kw
     had_results = len(net.res_bus) > 0
     prev_nan = bool(had_results and net.res_bus.vm_pu.isna().any())
+    pre_live = copy.deepcopy(net) if init_results and kind == "runpp" and had_results else None
     _, e_live = c08._plain(net, kind, copy.deepcopy(kw))
     _, e_ref = c08._plain(ref, kind, copy.deepcopy(kw_ref))
     o_live = "ok" if e_live is None else type(e_live).__name__
@@ -372,6 +373,17 @@ def _exec_probe(net, op, i, ctx, h):
         if init_results:
             iters = _iterations(ref)
             if _is_refusal(e_live) or not had_results:
+                conclusive = False
+            elif kw.get("algorithm", "nr") != "nr":
+                # the convergence region of the other solvers from a given start differs from Newton-Raphson's (the
+                # Iwamoto multiplier can stagnate at a local minimum of the mismatch from a start from which plain NR
+                # converges in 7 iterations - seen after the outage of a 245 MW generator): only NR is judged here
+                conclusive = False
+                ctx.probe("init_results_failure_with_non_nr_solver_not_judged")
+            elif nearby and (iters is None or iters <= WELL_CONDITIONED_ITERS) and isinstance(e_live, Exception) \
+                    and _normal_operating_point(ref) and _slower_but_same(pre_live, kw, ref, e_live, ctx):
+                # the start from the previous results reaches the same solution, it only needs more than the default
+                # number of iterations (e.g. after the outage of a large generator): "only changes the starting point"
                 conclusive = False
             elif nearby and (iters is None or iters <= WELL_CONDITIONED_ITERS) and isinstance(e_live, Exception) \
                     and _normal_operating_point(ref):
@@ -467,6 +479,24 @@ def _normal_operating_point(net):
         return False
     vm = vm[~np.isnan(vm)]
     return bool(len(vm)) and bool(vm.min() >= 0.8) and bool(vm.max() <= 1.2)
+
+
+
+def _slower_but_same(pre_live, kw, ref, e_live, ctx):
+    """the live run failed with the iteration limit: given five times as many iterations, does the run from the
+    previous results converge to the reference solution?"""
+    from pandapower.auxiliary import LoadflowNotConverged
+    import pandapower as pp
+    if pre_live is None or not isinstance(e_live, LoadflowNotConverged) or "max_iteration" in kw:
+        return False
+    _, e2 = c08._plain_call(lambda: pp.runpp(pre_live, **dict(kw, max_iteration=50)))
+    if e2 is not None:
+        return False
+    d = oracles.compare_results(pre_live, ref, tables=["res_bus"], rtol=5e-5, atol=5e-5)
+    if d:
+        return False
+    ctx.probe("init_results_slower_but_same_solution")
+    return True
 
 
 def _iterations(net):
